@@ -137,7 +137,9 @@ def pieces(v, fn, hooks=None, args=None):
             out.append({"kind": e, "loops": loops, "guards": guards, "eff": x, "line": x["l"], "stack": stack, "pre": pre})
         elif e == "return":
             if stack:
-                continue        # the return of an inlined callee is a value flow (its value is the call's value), not an exit
+                # the return of an inlined callee is a value flow (its value is the call's value), not an exit of the function
+                out.append({"kind": "ireturn", "loops": loops, "guards": guards, "val": x.get("val"), "line": x["l"], "stack": stack, "pre": pre})
+                continue
             out.append({"kind": "return", "loops": loops, "guards": guards, "val": x.get("val"), "line": x["l"], "stack": stack, "pre": pre})
         elif e == "local":
             out.append({"kind": "local", "loops": loops, "guards": guards, "eff": x, "line": x["l"], "stack": stack, "pre": pre,
@@ -247,7 +249,7 @@ def _fold_sums(ps):
             for j, q in enumerate(out):
                 if j == k or (j, q) in loc:
                     continue
-                if q["kind"] == "return" and q.get("val") == V and len(q.get("stack") or []) > len(p.get("stack") or []):
+                if q["kind"] in ("return", "ireturn") and q.get("val") == V and len(q.get("stack") or []) > len(p.get("stack") or []):
                     continue      # the value an inlined helper hands back: that is how it reaches the assignment
                 terms = [q.get("val")] + list(q.get("args") or []) + [q.get("lv")]
                 if any(t is not None and isinstance(t, tuple) and sym.contains(t, V) for t in terms):
